@@ -60,12 +60,68 @@ func vfStub_os_ReadFile(name string) ([]byte, error) {
 	return []byte(name), nil
 }
 
+// yaml.Unmarshal decodes INTO its target, as yaml.v3 documents: a key the
+// file has sets the field (a mapping is merged key by key into an existing
+// map, whose elements are replaced whole; a sequence replaces the slice), a
+// key the file does not have leaves the field as it was. With a fresh target
+// per file, as the read step uses it, that is plain assignment.
 func vfStub_yaml_Unmarshal(in []byte, out interface{}) error {
 	name := string(in)
 	if VfEnv.YamlErr[name] {
 		return errors.New("yaml: line 1: did not find expected key")
 	}
-	*(out.(*input.Input)) = VfEnv.Inputs[name]
+	src := VfEnv.Inputs[name]
+	dst := out.(*input.Input)
+	if src.Version != nil {
+		dst.Version = src.Version
+	}
+	if src.Meta.Pkg != nil {
+		dst.Meta.Pkg = src.Meta.Pkg
+	}
+	if src.Meta.ContainerType != nil {
+		dst.Meta.ContainerType = src.Meta.ContainerType
+	}
+	if src.Meta.ContainerConstructor != nil {
+		dst.Meta.ContainerConstructor = src.Meta.ContainerConstructor
+	}
+	if src.Meta.DefaultMustGetter != nil {
+		dst.Meta.DefaultMustGetter = src.Meta.DefaultMustGetter
+	}
+	if src.Meta.Imports != nil {
+		if dst.Meta.Imports == nil {
+			dst.Meta.Imports = map[string]string{}
+		}
+		for k, v := range src.Meta.Imports {
+			dst.Meta.Imports[k] = v
+		}
+	}
+	if src.Meta.Functions != nil {
+		if dst.Meta.Functions == nil {
+			dst.Meta.Functions = map[string]string{}
+		}
+		for k, v := range src.Meta.Functions {
+			dst.Meta.Functions[k] = v
+		}
+	}
+	if src.Params != nil {
+		if dst.Params == nil {
+			dst.Params = map[string]any{}
+		}
+		for k, v := range src.Params {
+			dst.Params[k] = v
+		}
+	}
+	if src.Services != nil {
+		if dst.Services == nil {
+			dst.Services = map[string]input.Service{}
+		}
+		for k, v := range src.Services {
+			dst.Services[k] = v
+		}
+	}
+	if src.Decorators != nil {
+		dst.Decorators = append([]input.Decorator(nil), src.Decorators...)
+	}
 	return nil
 }
 
